@@ -134,6 +134,19 @@ func (l *Lexer) readIdentifier() string {
 	return l.input[position:l.position]
 }
 
+// exponentAt reports whether an exponent part starts at offset i of the input:
+// `e` or `E`, an optional sign and at least one digit.
+func (l *Lexer) exponentAt(i int) bool {
+	if i < 0 || i >= len(l.input) || (l.input[i] != 'e' && l.input[i] != 'E') {
+		return false
+	}
+	i++
+	if i < len(l.input) && (l.input[i] == '+' || l.input[i] == '-') {
+		i++
+	}
+	return i < len(l.input) && isDigit(l.input[i])
+}
+
 // readNumber reads a number (integer, decimal, scientific notation, hexadecimal, binary, or octal)
 func (l *Lexer) readNumber() (string, token.Type) {
 	position := l.position
@@ -158,8 +171,9 @@ func (l *Lexer) readNumber() (string, token.Type) {
 		l.ReadChar()
 	}
 
-	// Check if it's a decimal number
-	if l.CurrentChar == '.' && isDigit(l.PeekChar()) {
+	// Check if it's a decimal number: the dot belongs to the literal when a digit
+	// follows it, or an exponent part (`1.e3` is 1000 in JavaScript)
+	if l.CurrentChar == '.' && (isDigit(l.PeekChar()) || l.exponentAt(l.readPosition)) {
 		tokenType = token.FLOAT
 		l.ReadChar() // consume the '.'
 		for isDigit(l.CurrentChar) {
